@@ -272,6 +272,31 @@ def check_factor(a, c):
     return None
 
 
+EXTREMES = [0, 1, -1, 2, -2, 1 << 31, -(1 << 31), 1 << 32, B63 - 1, B63, -B63, -B63 + 1, -B63 - 1, 1 << 64, -(1 << 64)]
+
+
+def grid_cases():
+    """Every binary operator on every ordered pair of extreme values (0, +-1, +-2, +-2^31, 2^32, +-2^63 and their
+    neighbours, +-2^64), each operand once as a literal (machine word where it fits) and once computed through big
+    arithmetic: the corners where a machine-word fast path and the big path meet (seed-independent)."""
+    out = []
+    for op in BINOPS:
+        for a in EXTREMES:
+            for b in EXTREMES:
+                if op in ("^", "<<", ">>") and not (0 <= b <= 64):
+                    continue
+                exp = expect(op, a, b)
+                if exp is None:
+                    continue
+                for pa in ("literal", "bigdiff"):
+                    for pb in ("literal", "bigdiff"):
+                        sa = lit(a) if pa == "literal" else "(%s + 2^70 - 2^70)" % lit(a)
+                        sb = lit(b) if pb == "literal" else "(%s + 2^70 - 2^70)" % lit(b)
+                        text = "%s(%s, %s)" % (op, sa, sb) if op in ("gcd", "lcm", "max", "min") else "%s %s %s" % (sa, op, sb)
+                        out.append((text, exp, {"op": op, "a": a, "b": b, "prod": [pa, pb]}))
+    return out
+
+
 def shard(ctx, si, n):
     sh = core.Shard("C06")
     r = core.rng_for("C06", ctx.seed, si)
@@ -279,8 +304,12 @@ def shard(ctx, si, n):
     w = core.Worker()
     try:
         done = 0
-        while done < total:
+        grid = [c for i, c in enumerate(grid_cases()) if i % n == si]
+        sh.count("grid:extreme-pairs", len(grid))
+        while done < total or grid:
             cases = []
+            if grid:
+                cases, grid = grid[:250], grid[250:]
             while len(cases) < 250:
                 c = gen_case(r)
                 if c:
